@@ -44,27 +44,28 @@ def main():
                 passed.add(name)
     # tests that did not pass under xdist are re-run sequentially (the baseline was recorded sequentially; a parallel run is
     # load- and port-sensitive) and count only if they fail again
-    retry = sorted((stable & seen) - passed) if True else []
-    if retry and len(retry) <= 400:
-        ids = []
-        for name in retry:
-            cls, _, tn = name.partition("::")
-            parts = cls.split(".")
-            for i in range(len(parts), 0, -1):
-                fp = os.path.join(root, *parts[:i]) + ".py"
-                if os.path.exists(fp):
-                    ids.append("::".join(["/".join(parts[:i]) + ".py"] + parts[i:] + [tn]))
-                    break
-        with tempfile.TemporaryDirectory(prefix="blchk-") as tmp:
-            xml = os.path.join(tmp, "junit.xml")
-            cmd = ["/venv/bin/python", "-m", "pytest", "-q", "-p", "no:cacheprovider", "--timeout=900", f"--junitxml={xml}", "-o",
-                   "junit_family=xunit1"] + ids
-            subprocess.run(cmd, cwd=root, env=env, stdout=subprocess.PIPE, stderr=subprocess.STDOUT, text=True)
-            if os.path.exists(xml):
-                for tc in ET.parse(xml).getroot().iter("testcase"):
-                    name = f"{tc.get('classname')}::{tc.get('name')}"
-                    if not any(ch.tag in ("failure", "error", "skipped") for ch in tc):
-                        passed.add(name)
+    for _attempt in range(3):
+      retry = sorted((stable & seen) - passed)
+      if retry and len(retry) <= 400:
+          ids = []
+          for name in retry:
+              cls, _, tn = name.partition("::")
+              parts = cls.split(".")
+              for i in range(len(parts), 0, -1):
+                  fp = os.path.join(root, *parts[:i]) + ".py"
+                  if os.path.exists(fp):
+                      ids.append("::".join(["/".join(parts[:i]) + ".py"] + parts[i:] + [tn]))
+                      break
+          with tempfile.TemporaryDirectory(prefix="blchk-") as tmp:
+              xml = os.path.join(tmp, "junit.xml")
+              cmd = ["/venv/bin/python", "-m", "pytest", "-q", "-p", "no:cacheprovider", "--timeout=900", f"--junitxml={xml}", "-o",
+                     "junit_family=xunit1"] + ids
+              subprocess.run(cmd, cwd=root, env=env, stdout=subprocess.PIPE, stderr=subprocess.STDOUT, text=True)
+              if os.path.exists(xml):
+                  for tc in ET.parse(xml).getroot().iter("testcase"):
+                      name = f"{tc.get('classname')}::{tc.get('name')}"
+                      if not any(ch.tag in ("failure", "error", "skipped") for ch in tc):
+                          passed.add(name)
     subset = bool([a for a in args if not a.startswith("-")]) or "-k" in args
     expected = (stable & seen) if subset else stable
     missing = sorted(expected - passed)
